@@ -78,6 +78,7 @@ type c14Op struct {
 	Order      []int   `json:"order,omitempty"`
 	// timing: real sleeping of one retry loop
 	DNs    int64   `json:"dNs,omitempty"`
+	K      int     `json:"k,omitempty"` // timing: failures already recorded in the job when the node is (re)started
 	GapsNs []int64 `json:"gapsNs,omitempty"`
 }
 
@@ -898,7 +899,10 @@ func (h *c14H) exec(op *c14Op) string {
 // records when it is called; the gaps between consecutive attempts of the loop are handed to the model, which checks
 // them against its back-off function (lower bounds only: a sleep is never shorter than asked for).
 func (h *c14H) timing(op *c14Op) string {
-	const want = 8
+	want := 8
+	if op.K > 0 {
+		want = 4 // the sleeps after a restart start at retryDelay * 2^(k+1): a few are enough (and long)
+	}
 	if len(h.pool) == 0 {
 		return "timing|no-pool"
 	}
@@ -919,11 +923,18 @@ func (h *c14H) timing(op *c14Op) string {
 		return false, nil
 	}, WithPersistency(db), WithRetryDelay(time.Duration(op.DNs)))
 	defer n.Close()
-	ev := Event{Type: TransactionEventType, Hash: h.pool[0].tx.Ref(), Transaction: h.pool[0].tx}
+	ev := Event{Type: TransactionEventType, Hash: h.pool[0].tx.Ref(), Transaction: h.pool[0].tx, Retries: op.K}
 	if err := db.Write(context.Background(), func(tx stoabs.WriteTx) error { return n.Save(tx, ev) }); err != nil {
 		return "timing|err:" + err.Error()
 	}
-	n.Notify(ev)
+	if op.K > 0 {
+		// the job carries k recorded failures from before the stop: the node starts, Run resumes it
+		if err := n.Run(); err != nil {
+			return "timing|err:" + err.Error()
+		}
+	} else {
+		n.Notify(ev)
+	}
 	deadline := time.Now().Add(20 * time.Second)
 	for {
 		mu.Lock()
@@ -937,7 +948,7 @@ func (h *c14H) timing(op *c14Op) string {
 	mu.Lock()
 	defer mu.Unlock()
 	op.GapsNs = nil
-	// times[0]: Notify itself; times[1]: first attempt of retry.Do (no sleep before it); then one sleep per attempt
+	// times[0]: Notify (or Run) itself; times[1]: first attempt of retry.Do (no sleep before it); then one sleep per attempt
 	for i := 2; i < len(times) && i < want+2; i++ {
 		op.GapsNs = append(op.GapsNs, int64(times[i].Sub(times[i-1])))
 	}
@@ -1470,6 +1481,10 @@ func TestVerifC14(t *testing.T) {
 	for i := 0; i < nTiming; i++ {
 		r.emit(&c14Op{Op: "timing", DNs: int64(50000 << uint(i))})
 	}
+	// the same after a restart with k recorded failures: the sleeps continue at retryDelay * 2^(k+1), not at 2 * retryDelay
+	for i := 0; i < nTiming; i++ {
+		r.emit(&c14Op{Op: "timing", DNs: 50000, K: 5 + r.rng.Intn(3) + i%2})
+	}
 	if cd := os.Getenv("VERIF_CORPUS"); cd != "" {
 		files, _ := filepath.Glob(filepath.Join(cd, "*.jsonl"))
 		sort.Strings(files)
@@ -1490,4 +1505,116 @@ func TestVerifC14(t *testing.T) {
 		h.g.kill()
 	}
 	t.Logf("c14: %d ops", r.nOps)
+}
+
+// ---------------------------------------------------------------- resume leg: Finished() lands while Run is resuming
+//
+// A stop leaves several jobs of ONE persistent notifier on the shelf. After the restart Run resumes them one by one;
+// while the receiver is working on job i, Finished() is called for another job j (i < j: not yet resumed; the payload
+// reply / operator clean-up does not wait for the resume loop). Run must look at the shelf again for every job: an event
+// whose completion was recorded must not be delivered. Plain bbolt store, real notifier, no stepping; the log is checked
+// by props/C14.py (no call of an event after its completion record).
+func TestVerifC14Resume(t *testing.T) {
+	outDir := os.Getenv("VERIF_OUT")
+	if outDir == "" {
+		t.Skip("VERIF_OUT not set")
+	}
+	seed, _ := strconv.ParseInt(os.Getenv("VERIF_SEED"), 10, 64)
+	rounds, _ := strconv.Atoi(os.Getenv("VERIF_ROUNDS"))
+	if rounds == 0 {
+		rounds = 12
+	}
+	logrus.StandardLogger().SetOutput(io.Discard)
+	rng := rand.New(rand.NewSource(seed*15485863 + 14))
+	dir := filepath.Join(outDir, "db-resume")
+	_ = os.MkdirAll(dir, 0o755)
+	defer os.RemoveAll(dir)
+	var lines []string
+	for round := 0; round < rounds; round++ {
+		path := filepath.Join(dir, fmt.Sprintf("r%d.db", round))
+		nJobs := 2 + rng.Intn(4)
+		root := CreateSignedTestTransaction(uint32(5000+100*round), time.Now(), nil, "application/vc+json", true)
+		txs := []Transaction{root}
+		for i := 1; i < nJobs; i++ {
+			txs = append(txs, CreateSignedTestTransaction(uint32(5000+100*round+i), time.Now(), nil, "application/vc+json", true, root))
+		}
+		// shelf (= resume) order is the byte order of the refs
+		sort.Slice(txs, func(i, j int) bool { return bytes.Compare(txs[i].Ref().Slice(), txs[j].Ref().Slice()) < 0 })
+		idx := map[hash.SHA256Hash]int{}
+		for i, tx := range txs {
+			idx[tx.Ref()] = i
+		}
+		// run 1: the events are committed, the node stops before (or while) notifying: jobs with 0..2 recorded failures
+		db, err := bbolt.CreateBBoltStore(path, stoabs.WithNoSync())
+		if err != nil {
+			t.Fatal(err)
+		}
+		n1 := NewNotifier("resume", func(ev Event) (bool, error) { return false, nil }, WithPersistency(db), WithRetryDelay(time.Hour))
+		if err := db.Write(context.Background(), func(wtx stoabs.WriteTx) error {
+			for _, tx := range txs {
+				if err := n1.Save(wtx, Event{Type: PayloadEventType, Hash: tx.Ref(), Transaction: tx, Payload: []byte{1}, Retries: rng.Intn(3)}); err != nil {
+					return err
+				}
+			}
+			return nil
+		}); err != nil {
+			t.Fatal(err)
+		}
+		_ = n1.Close()
+		_ = db.Close(context.Background())
+
+		// run 2: restart. Script: while job i is delivered, Finished() is called for job fin[i] (another job, mostly a later one)
+		db, err = bbolt.CreateBBoltStore(path, stoabs.WithNoSync())
+		if err != nil {
+			t.Fatal(err)
+		}
+		fin := map[int]int{}
+		for i := 0; i < nJobs; i++ {
+			if rng.Intn(100) < 60 {
+				j := rng.Intn(nJobs)
+				if j == i {
+					j = (i + 1) % nJobs
+				}
+				if round%3 == 0 && i+1 < nJobs {
+					j = i + 1 + rng.Intn(nJobs-i-1) // the sharp case: a job the resume loop has not reached yet
+				}
+				fin[i] = j
+			}
+		}
+		var mu sync.Mutex
+		var log []string
+		var n2 Notifier
+		n2 = NewNotifier("resume", func(ev Event) (bool, error) {
+			i := idx[ev.Hash]
+			mu.Lock()
+			log = append(log, fmt.Sprintf("call:%d", i))
+			j, ok := fin[i]
+			mu.Unlock()
+			if ok {
+				if err := n2.Finished(txs[j].Ref()); err == nil {
+					mu.Lock()
+					log = append(log, fmt.Sprintf("fin:%d", j))
+					mu.Unlock()
+				}
+			}
+			mu.Lock()
+			log = append(log, fmt.Sprintf("done:%d", i))
+			mu.Unlock()
+			return true, nil
+		}, WithPersistency(db), WithRetryDelay(time.Hour))
+		runErr := n2.Run()
+		mu.Lock()
+		e := "nil"
+		if runErr != nil {
+			e = runErr.Error()
+		}
+		lines = append(lines, fmt.Sprintf("round=%d jobs=%d run=%s log=%s", round, nJobs, e, strings.Join(log, ",")))
+		mu.Unlock()
+		_ = n2.Close()
+		_ = db.Close(context.Background())
+		os.Remove(path)
+	}
+	if err := os.WriteFile(filepath.Join(outDir, "resume.out"), []byte(strings.Join(lines, "\n")+"\n"), 0o644); err != nil {
+		t.Fatal(err)
+	}
 }
